@@ -81,7 +81,7 @@ class _TypeVariable:
     kws = {x.arg for x in node.keywords}
     extra = kws - {"bound", "covariant", "contravariant", "default"}
     if extra:
-      raise ParseError(f"Unrecognized keyword(s): {', '.join(extra)}")
+      raise ParseError(f"Unrecognized keyword(s): {', '.join(sorted(extra))}")
     for kw in node.keywords:
       if kw.arg == "bound":
         bound = kw.value
